@@ -1,7 +1,9 @@
 (* C14/NodeClone.v — mpt_node_clone / mpt_list_clone / mpt_tree_clone build, out of
-   fresh cells only, a pointer structure that represents the renumbered copy of the
-   source forest (same names, values, nesting, order — and parent links at every
-   depth), and leave every existing cell as it was. *)
+   fresh cells only, a pointer structure that represents the copy of the source forest
+   (same names, values, nesting, order — and parent links at every depth), and leave
+   every existing cell as it was.  When a node cannot be cloned (its value refuses, an
+   allocation fails) everything built so far is unlinked, destroyed and freed once
+   ([clone_cleanup], [clone_failed]) and the heap represents the old forest alone. *)
 From Coq Require Import List Arith ZArith Bool Lia Permutation Wf_nat.
 From MptV Require Import C14.NodeModel C14.NodeSpec C14.NodeRep C14.NodeFocus C14.NodeExec
   C14.NodeLocal C14.NodeInv C14.NodeRefine C14.NodeFree.
